@@ -76,6 +76,10 @@ class C07:
         src, tgt = ("param", s.params[0]), ("param", s.params[1])
         site = f"{self.file}:{s.node.lineno} match_geometries"
         stores = [e for e in s.of("store") if e.term[1][0] == "sub" and e.term[1][2][0] == "tuple"]
+        if not stores:
+            got = self.comprehension_matrix(s, src, tgt, site, strict)
+            if got is not None:
+                return got[0]
         if len(stores) != 1:
             ctx.undec("R07.1", site, f"{len(stores)} matrix cell assignments (expected 1)")
             return None
@@ -147,6 +151,75 @@ class C07:
             ctx.bad("R07.1", self.file, "match_geometries", f"conditional cell assignment: {show(st.live)[:60]}",
                     "matrix cells are only assigned conditionally", st.lineno)
         return mat
+
+    def comprehension_matrix(self, s, src, tgt, site, strict):
+        """The matrix written as one expression: np.array([aff(g1, g2) for g1 in source for g2 in target]).reshape(len(source),
+        len(target)) (row-major: the outer loop is the row) or np.array([[aff(g1, g2) for g2 in target] for g1 in source]).
+        (matrix term,) when the code has this shape (findings / ok instances recorded), None otherwise."""
+        ctx = self.ctx
+        sel = ("global", f"{MATCH}:_select_matches", "func")
+        calls = [e for e in s.calls if e.term[1] == sel and len(e.term[2]) == 1]
+        if len(calls) != 1:
+            return None
+        mat = calls[0].term[2][0]
+        LEN = lambda x: ("call", ("builtin", "len"), (x,), ())
+        x, shape = mat, None
+        if x[0] == "call" and x[1][0] == "attr" and x[1][2] == "reshape" and not x[3]:
+            shape = x[2][0] if len(x[2]) == 1 and x[2][0][0] == "tuple" else ("tuple", tuple(x[2]))
+            x = x[1][1]
+        if not (x[0] == "call" and x[1] in (("ext", "numpy.array"), ("ext", "numpy.asarray")) and x[2] and x[2][0][0] == "comp"):
+            return None
+        kw = callkw(x)
+        dtype = kw.get("dtype", x[2][1] if len(x[2]) > 1 else None)
+        comp = x[2][0]
+        gens = list(comp[3])
+        elt = comp[2]
+        if shape is None and len(gens) == 1 and elt[0] == "comp" and elt[1] == "list" and len(elt[3]) == 1:
+            gens, elt = gens + list(elt[3]), elt[2]  # nested rows
+        elif shape is None or len(gens) != 2 or comp[1] != "list":
+            return None
+        line = calls[0].lineno
+        FLOAT64 = (("builtin", "float"), ("ext", "numpy.float64"), ("ext", "numpy.double"), ("ext", "numpy.float_"), ("const", "float64"),
+                   ("const", "float"), ("const", "d"), ("const", "f8"), NONE, None)
+        (l1, it1, c1), (l2, it2, c2) = gens
+        if dtype not in FLOAT64:
+            ctx.bad("R07.1", self.file, "match_geometries", f"cost_matrix = {show(mat)[:70]}",
+                    f"the affinity matrix is built with dtype {show(dtype)}: affinities are doubles, storing them in another type "
+                    f"changes the reported affinity (it no longer equals compute_affinity of the pair) and can change the optimal pairing",
+                    line, witness={"affinity": 1 / 3, "stored as float32": 0.3333333432674408})
+        elif (it1, it2) == (src, tgt) and shape in (None, ("tuple", (LEN(src), LEN(tgt))), ("tuple", (LEN(src), ("const", -1))), ("tuple", (("const", -1), LEN(tgt)))):
+            ctx.ok("R07.1", site, "matrix = one affinity per (source, target) pair in row-major order, shaped (len(source), len(target)), doubles")
+        elif (it1, it2) == (tgt, src) or shape == ("tuple", (LEN(tgt), LEN(src))):
+            ctx.bad("R07.1", self.file, "match_geometries", f"cost_matrix = {show(mat)[:70]}",
+                    "the affinity matrix is laid out transposed (targets along the rows) while its cells are addressed "
+                    "[source index, target index]: with unequal numbers of source and target geometries cells belong to other pairs", line)
+        elif strict:
+            ctx.undec("R07.1", site, f"layout of the matrix expression not recognised: {show(mat)[:80]}")
+        afn = ("global", f"{AFF}:compute_affinity", "func")
+        if not (elt[0] == "call" and elt[1] == afn):
+            ctx.bad("R07.1", self.file, "match_geometries", f"cost_matrix[i, j] = {show(elt)[:60]}",
+                    "matrix cells are not filled with compute_affinity(...)", line)
+            return (mat,)
+        asum = ctx.summ.of_func(AFF, "compute_affinity")
+        bound, extra, spreads, _ = bind_args(elt, asum.params)
+        a, b = bound.get(asum.params[0], NONE), bound.get(asum.params[1], NONE)
+        if (it1, it2) in ((src, tgt), (tgt, src)):
+            row_l, col_l = (l1, l2) if it1 == src else (l2, l1)
+            if (a, b) == (("elem", row_l), ("elem", col_l)):
+                ctx.ok("R07.1", f"{self.file}:{line} match_geometries", "cell [i, j] = compute_affinity(source[i], target[j])")
+            else:
+                ctx.bad("R07.1", self.file, "match_geometries", f"compute_affinity({show(a)[:20]}, {show(b)[:20]}, ...)",
+                        "the matrix cell indexed (row from source, column from target) is not the affinity of that source "
+                        "geometry with that target geometry", line)
+        for k in ("time_buffer", "freq_buffer"):
+            if bound.get(k) == ("param", k):
+                ctx.ok("R07.1", f"{self.file}:{line} match_geometries", f"{k} forwarded to compute_affinity")
+            else:
+                ctx.bad("R07.1", self.file, "match_geometries", f"compute_affinity(... {k}={show(bound.get(k, NONE))})",
+                        f"the caller's {k} is not forwarded to compute_affinity (receives {show(bound.get(k, NONE))})", line)
+        if strict and (c1 or c2):
+            ctx.bad("R07.1", self.file, "match_geometries", "filtered pair loop", "the pair loop skips some pairs", line)
+        return (mat,)
 
     def check_report(self, mat, solver=True):
         ctx = self.ctx
@@ -258,8 +331,13 @@ class C07:
                 left_c.append(y)
             else:
                 two.append(y)
+        res = ("call", call[1], call[2], call[3])
+        if len(other) == 1 and not two and other[0].term[0] == "yieldfrom" and self.vector_form(s, M, res, other[0], left_r, left_c, site):
+            return
         for y in other:
-            ctx.bad("R07.3", self.file, "_select_matches", f"yield {show(y.term)[:50]}", "unexpected yield shape", y.lineno)
+            ctx.undec("R07.3", f"{self.file}:{y.lineno} _select_matches", f"yield of another shape than (row, column): {show(y.term)[:60]}")
+        if other:
+            return
         if len(two) != 1:
             # several pairing paths (a shortcut next to the solver): whatever else they do, each must pair only on a positive cell
             unguarded = []
@@ -280,7 +358,6 @@ class C07:
             return
         y = two[0]
         L = s.loops.get(y.loops[-1]) if y.loops else None
-        res = ("call", call[1], call[2], call[3])
         zipped = L is not None and L.iter == ("call", ("builtin", "zip"), (("sub", res, ("const", 0)), ("sub", res, ("const", 1))), ())
         r, c = y.term[1]
         if not (zipped and r == ("sub", ("elem", L.id), ("const", 0)) and c == ("sub", ("elem", L.id), ("const", 1))):
@@ -327,6 +404,83 @@ class C07:
                         f"from the leftover set: some {'source' if pos == 0 else 'target'} index is never mentioned or is "
                         f"mentioned on the wrong side", s.node.lineno)
         self.check_dominance(s, M, y, r, c)
+
+    def vector_form(self, s, M, res, yf, left_r, left_c, site) -> bool:
+        """The vectorised spelling: pairs = zip(rows[keep], cols[keep]) with keep the mask of positive assigned cells, and the
+        one-sided entries the indices still set in a boolean vector of ones from which exactly the paired indices were cleared
+        (or np.setdiff1d(arange(n), paired)).  False when the code has another shape (nothing has been reported then)."""
+        ctx = self.ctx
+        z = yf.term[1]
+        if not (z[0] == "call" and z[1] == ("builtin", "zip") and len(z[2]) == 2 and not z[3]):
+            return False
+        rows, cols = ("sub", res, ("const", 0)), ("sub", res, ("const", 1))
+        A, B = z[2]
+        if (A, B) == (rows, cols):
+            ctx.ok("R07.3", f"{self.file}:{yf.lineno} _select_matches", "pairs = zip of the solver's rows and columns")
+            mask = None
+        elif A[0] == "sub" and B[0] == "sub" and A[1] == rows and B[1] == cols and A[2] == B[2]:
+            mask = A[2]
+        else:
+            return False
+        if any(c[0] != "inloop" for c in conjuncts(yf.live)) or yf.loops:
+            return False
+        cells = ("sub", M, ("tuple", (rows, cols)))
+        positive = [("invert", ("cmp", "le", cells, ("const", z0))) for z0 in (0, 0.0)] + [("cmp", "lt", ("const", z0), cells) for z0 in (0, 0.0)]
+        if mask is None:
+            ctx.bad("R07.4", self.file, "_select_matches", "yield from zip(rows, columns) (unguarded solver output)",
+                    "every pair returned by the solver is yielded as a match, including pairs whose affinity is 0: two "
+                    "non-overlapping geometries are reported as matched with affinity 0.0 instead of two one-sided entries",
+                    yf.lineno, witness={"input": "match_geometries([box A], [disjoint box B])", "observed": "(0, 0, 0.0)"})
+        elif mask in positive:
+            ctx.ok("R07.4", f"{self.file}:{yf.lineno} _select_matches", "pairs kept only where cost_matrix[rows, columns] > 0 (one mask for both sides)")
+        elif mask in [("invert", ("cmp", "lt", cells, ("const", z0))) for z0 in (0, 0.0)] + [("cmp", "le", ("const", z0), cells) for z0 in (0, 0.0)]:
+            ctx.bad("R07.4", self.file, "_select_matches", f"pairs kept where {show(mask)[:60]}",
+                    "assigned pairs whose affinity is exactly 0 are kept as matches: two non-overlapping geometries are reported as "
+                    "matched with affinity 0.0 instead of two one-sided entries", yf.lineno,
+                    witness={"input": "match_geometries([box A], [disjoint box B])", "observed": "(0, 0, 0.0)"})
+        else:
+            ctx.undec("R07.4", f"{self.file}:{yf.lineno} _select_matches", f"mask of the kept pairs is not `cost_matrix[rows, cols] > 0`: {show(mask)[:70]}")
+        stores = s.of("store")
+        for name, ylist, pos, sel in (("row", left_r, 0, A), ("column", left_c, 1, B)):
+            n = ("sub", ("attr", M, "shape"), ("const", pos))
+            good = None
+            for yy in ylist:
+                LL = s.loops.get(yy.loops[-1]) if yy.loops else None
+                if LL is None or LL.conds or yy.term[1][pos] != ("elem", LL.id) or yy.idx < yf.idx or any(c[0] != "inloop" for c in conjuncts(yy.live)):
+                    continue
+                it = LL.iter
+                if it[0] == "call" and it[1][0] == "attr" and it[1][2] == "tolist" and not it[2]:
+                    it = it[1][1]
+                if it[0] == "call" and it[1] == ("builtin", "sorted") and len(it[2]) == 1:
+                    it = it[2][0]
+                U = None
+                if it[0] == "call" and it[1] == ("ext", "numpy.flatnonzero") and len(it[2]) == 1:
+                    U = it[2][0]
+                elif it[0] == "sub" and it[2] == ("const", 0) and it[1][0] == "call" and it[1][1] in (("ext", "numpy.nonzero"), ("ext", "numpy.where")) and len(it[1][2]) == 1:
+                    U = it[1][2][0]
+                elif it[0] == "call" and it[1] == ("ext", "numpy.setdiff1d") and len(it[2]) == 2 and not it[3]:
+                    ar = it[2][0]
+                    good = ar == ("call", ("ext", "numpy.arange"), (n,), ()) and it[2][1] == sel
+                    continue
+                if U is None or not (U[0] == "call" and U[1] == ("ext", "numpy.ones") and U[2] and U[2][0] == n):
+                    continue
+                kw = callkw(U)
+                dt = kw.get("dtype", U[2][1] if len(U[2]) > 1 else None)
+                if dt not in (("builtin", "bool"), ("ext", "numpy.bool_"), ("const", "bool"), ("const", "?")):
+                    continue
+                cleared = [e for e in stores if e.term[1][0] == "sub" and e.term[1][1] == U]
+                good = (len(cleared) == 1 and cleared[0].term[1][2] == sel and cleared[0].term[2] == ("const", False)
+                        and not cleared[0].loops and all(c[0] == "inloop" for c in conjuncts(cleared[0].live)) and cleared[0].idx < yy.idx)
+            if good is None:
+                ctx.undec("R07.3", site, f"leftover {name}s: the one-sided entries are not read from a recognised complement of the paired {name}s")
+            elif good:
+                ctx.ok("R07.3", site, f"paired {name}s (the kept {name}s of the solver) are exactly the ones cleared from the leftover vector")
+                ctx.ok("R07.3", site, f"every leftover {name} yielded one-sided after the pairs")
+            else:
+                ctx.bad("R07.3", self.file, "_select_matches", f"leftover {name}s",
+                        f"the one-sided {name} entries are the complement of something other than the {name}s of the yielded pairs: "
+                        f"an index is reported twice or not at all", s.node.lineno)
+        return True
 
     @staticmethod
     def _flatten(S):
